@@ -377,6 +377,9 @@ func (d *Datastore) validateUpdate(ctx context.Context, upd *sdcpb.Update) error
 	// 1.validate the path i.e check that the path exists
 	// 2.validate that the value is compliant with the schema
 
+	if upd == nil {
+		return fmt.Errorf("update is nil")
+	}
 	// 1. validate the path
 	rsp, err := d.schemaClient.GetSchemaSdcpbPath(ctx, upd.GetPath())
 	if err != nil {
